@@ -92,6 +92,10 @@ def run(ctx):
                 y = d.predict(X)
             if not (isinstance(y, pd.DataFrame) and "ilocs" in y.columns and isinstance(y.index, pd.RangeIndex)):
                 return "other:MalformedOutput", stage, str(type(y))
+            # integer locations also when nothing is detected: int64 changepoints, or left-closed int64 intervals
+            dt = y["ilocs"].dtype
+            if not (dt == np.int64 or (isinstance(dt, pd.IntervalDtype) and dt.subtype == np.int64 and dt.closed == "left")):
+                return "other:MalformedOutput", stage, f"ilocs has dtype {dt} ({len(y)} detections)"
             return "completed", stage, ""
         except ValueError as ex:
             return "ValueError", stage, str(ex)[:90]
